@@ -45,6 +45,10 @@ def gen(seed, n, tag='loop'):
         downcap = fragsize if fragsize else 150
         a += ['--cli-size', str(rng.randrange(40, max(41, min(700, 8 * upcap)))),
               '--srv-size', str(rng.randrange(40, max(41, min(900, 8 * downcap))))]
+        if rng.random() < 0.2:
+            # every fifth packet a large compressible one (a jumbo ping): sizes around the 4 KiB scratch buffers and up to 20000
+            a += [rng.choice(['--cli-big', '--srv-big']), str(rng.choice([4092, 4093, 4100, 8020, 20000]))]
+            stats['big_packets'] = stats.get('big_packets', 0) + 1
         ci = rng.choice([150, 250, 400, 500, 700, 900, 1100, 1300, 2500])
         si = rng.choice([150, 200, 400, 900, 1300, 2500])
         a += ['--cli-int', str(ci), '--srv-int', str(si)]
